@@ -884,3 +884,69 @@ Lemma direct_read_stale_witness :
   = [ (OBytes (Ok [104; 101; 108; 108; 111]), Ok (pack 33 0));
       (OBytes (Ok [170; 170; 170; 170; 170]), Ok (pack 33 0)) ].
 Proof. vm_compute. reflexivity. Qed.
+
+(* ---- corollaries used by props/C02.v ------------------------------------------------------ *)
+
+Theorem tell_monotone_flat : forall f ops,
+  wf f -> total_csize f <= MAX_COMPRESSED_POSITION ->
+  ops_ok f (gzi_of f) (init f) ops ->
+  forallb (fun o => negb (is_seek o)) ops = true ->
+  exists fl, Forall2 (agrees f) (run f (gzi_of f) (init f) ops) fl /\ nondecr 0 (map snd fl).
+Proof.
+  intros f ops Hwf Hmax Hok Hns.
+  destruct (reader_refines_flat f ops Hwf Hmax Hok) as (fl & Hfl & Hall).
+  exists fl. split; [exact Hall|]. apply (frun_mono f ops (mkF 0 0) fl Hns Hfl).
+Qed.
+
+Theorem flat_seek_then_read : forall f s v j s1 x n,
+  fstep f s (Seek v) = Some (s1, x) -> denote f v = Some j ->
+  off s1 = j /\
+  exists k, k <= n /\ snd (f_read (chunks f) s1 n) = Ok (slice (concat (chunks f)) j k).
+Proof.
+  intros f s v j s1 x n Hs Hd. cbn [fstep] in Hs. unfold denote in Hd.
+  destruct (frame_start f 0 0 (vcomp v)) as [[s0 l]|]; [|discriminate].
+  destruct (vuncomp v <=? l); [|discriminate]. inversion Hs; subst. inversion Hd; subst.
+  split; [reflexivity|].
+  destruct (f_read_shape (chunks f) (f_seek (chunks f) s0 (vuncomp v)) n) as (k & Hk & Hr & _).
+  exists k. split; [exact Hk | exact Hr].
+Qed.
+
+Definition full_statement : Prop := forall f ops,
+  wf f -> total_csize f <= MAX_COMPRESSED_POSITION ->
+  Forall (fun o => match o with
+                   | Seek v => exists j, denote f v = Some j
+                   | SeekU p => seeku_ok f p
+                   | _ => True end) ops ->
+  exists fl, frun f (mkF 0 0) ops = Some fl /\
+             Forall2 (agrees f) (run f (gzi_of f) (init f) ops) fl.
+
+Lemma wf_wit : wf wit_file.
+Proof. repeat constructor; vm_compute; congruence. Qed.
+
+Theorem full_statement_refuted : ~ full_statement.
+Proof.
+  intros H.
+  destruct (H wit_file [Read 5; Seek (pack 61 0); Read 5] wf_wit) as (fl & Hfl & Hall).
+  - vm_compute. congruence.
+  - repeat constructor. exists 5. vm_compute. reflexivity.
+  - rewrite seek_eof_stale_witness in Hall. vm_compute in Hfl. inversion Hfl; subst fl. clear Hfl.
+    inversion Hall as [|? ? ? ? _ Hall1]; subst. inversion Hall1 as [|? ? ? ? Hag _]; subst.
+    destruct Hag as [_ (v & Hv & Hden)]. cbn [snd] in Hv, Hden. inversion Hv; subst v.
+    vm_compute in Hden. discriminate.
+Qed.
+
+Lemma example_ok :
+  wf wit_file /\ total_csize wit_file <= MAX_COMPRESSED_POSITION /\
+  ops_ok wit_file (gzi_of wit_file) (init wit_file)
+         [Read 3; Seek (pack 0 5); FillBuf; Seek (pack 33 0); SeekU 2; ReadExact 3; Read 70000].
+Proof.
+  split; [exact wf_wit|]. split; [vm_compute; congruence|].
+  cbn [ops_ok op_ok]. unfold seeku_ok. splits; try exact I;
+    try (intros (H1 & H2 & H3 & H4); vm_compute in H3; discriminate);
+    try (exists 5; vm_compute; reflexivity);
+    try (left; vm_compute; reflexivity);
+    try (intros H; vm_compute in H; discriminate);
+    try (vm_compute; intros H; discriminate H);
+    try (intros (H1 & H2 & H3 & H4); vm_compute in H1; congruence);
+    try (intros (H1 & H2 & H3 & H4); apply H4; vm_compute; reflexivity).
+Qed.
